@@ -41,7 +41,8 @@ class Violation(Exception):
         self.prop = prop
         self.tag = tag
         self.detail = detail
-        self.discr = discr or {}
+        # plain JSON values only (numpy scalars come out of comparisons easily)
+        self.discr = {k: (v.item() if hasattr(v, "item") and not isinstance(v, (list, dict, str)) else v) for k, v in (discr or {}).items()}
 
     def signature(self) -> dict:
         return {"oracle": self.tag, "discr": self.discr}
